@@ -6,6 +6,7 @@ import (
 	"encoding/hex"
 	"fmt"
 	"sort"
+	"strings"
 	"sync"
 	"sync/atomic"
 	"testing/synctest"
@@ -196,7 +197,19 @@ func (s *Sched) release(t *Task) {
 // pick decodes the next scheduling decision: 0 keeps running the task that ran
 // in the previous step if it is parked again, j>0 switches to the j-th other
 // parked task in id order. Past the end of the choice list every decision is 0.
-func (s *Sched) pick(ps []*Task) *Task {
+func (s *Sched) pick(all []*Task) *Task {
+	// A task parked at a "*.lockwait" point is waiting for a mutex whose holder
+	// is itself parked inside the critical section: it is eligible only when
+	// nothing else is (it then re-tries the lock).
+	ps := make([]*Task, 0, len(all))
+	for _, p := range all {
+		if !strings.HasSuffix(p.point, ".lockwait") {
+			ps = append(ps, p)
+		}
+	}
+	if len(ps) == 0 {
+		ps = all
+	}
 	c := 0
 	if !s.noChoice {
 		if s.cidx < len(s.choices) {
